@@ -11,12 +11,33 @@ from pyvc import ext_C10
 from pyvc import lemmas as lemlib
 from pyvc.npmodels import S2Arr
 from pyvc.spec import Registry
-from pyvc.values import NArr, SArr, Sym, fresh_name, to_z3
+from pyvc.values import NArr, SArr, Sym, fresh_name, to_z3, zint
 
 
 @lemlib.lemma("nonnegative-numbers-with-equal-squares-are-equal", 2)
 def _roots_agree(y1, y2):
     return z3.Implies(z3.And(y1 >= 0, y2 >= 0, y1 * y1 == y2 * y2), y1 == y2)
+
+
+@lemlib.lemma("half-quotient", 3)
+def _half_quotient(a, p, q):
+    return z3.Implies(z3.And(q != 0, 2 * a == p), a / q == p / (2 * q))
+
+
+@lemlib.lemma("quotient-bounds", 3)
+def _quotient_bounds(st, c, n):
+    q = (c - st) / st
+    return z3.Implies(st > 0, z3.And(z3.Implies(q <= n, c <= (n + 1) * st), z3.Implies(n - 1 < q, n * st < c)))
+
+
+@lemlib.lemma("quotient-times-divisor", 2)
+def _quot_times(a, q):
+    return z3.Implies(q != 0, (a / q) * q == a)
+
+
+@lemlib.lemma("degrees-times-pi", 2)
+def _deg_pi(x, pi):
+    return z3.Implies(pi != 0, (x * 180 / pi) * pi == 180 * x)
 
 
 ext_C10.install()  # numpy models needed by the C10 carriers (logical_and/or, count_nonzero log + row form, real arange)
@@ -171,9 +192,12 @@ def register(R: Registry):
 
     register_nodes(R)
     register_sholl(R)
-    register_padding(R)
+    PAD = register_padding(R)
     register_lmeasure(R)
-    register_frontend(R, register_features(R))
+    H = register_features(R)
+    H.update(register_topology_features(R, H))
+    register_frontend(R, H)
+    register_extractors(R, H, PAD)
 
 
 def register_nodes(R):
@@ -241,7 +265,7 @@ def is_count_of(E, res, n, pred):
     """`res` IS the number of positions i in [0, n) with pred(i):  res is the value cnt_m(|m|) of the counting function
     of a mask m that np.count_nonzero was applied to (ghost log of the model), |m| = n, and m[i] <=> pred(i) pointwise"""
     for mask, r in ext_C10.counted(E):
-        if isinstance(res, Sym) and r.z.eq(res.z):
+        if isinstance(res, Sym) and (r.z.eq(res.z) or (res.kind == "real" and z3.ToReal(r.z).eq(res.z))):  # the count itself, or its cast to a float
             i = z3.Int(fresh_name("i"))
             return z3.And(mask.nz() == n, z3.ForAll([i], z3.Implies(z3.And(i >= 0, i < n), mask.get(i).z == pred(i))))
     return z3.BoolVal(False)
@@ -254,11 +278,12 @@ def rs_unchanged(E, v, o):
     return ok and isinstance(rm, Sym) and rm.z.eq(o["self"].fields["rmax"].z)
 
 
-def register_sholl(R):
-    def rs_pred(sh, r):
-        rs = sh.fields["rs"]
-        return lambda i: straddles(z3.Select(rs.cols[0], i), z3.Select(rs.cols[1], i), to_z3(r, "real"))
+def rs_pred(sh, r):
+    rs = sh.fields["rs"]
+    return lambda i: straddles(z3.Select(rs.cols[0], i), z3.Select(rs.cols[1], i), to_z3(r, "real"))
 
+
+def register_sholl(R):
     # ---------------------------------------------------------------- Sholl.intersect
     R.add(f"{SHOLL}:Sholl.intersect", prop="C10",
           setup=lambda S: dict(self=sholl_obj(S), r=S.real("r")),
@@ -281,10 +306,40 @@ def register_sholl(R):
         n = sh.fields["rs"].nz()
         return z3.And(*[is_count_of(E, res.items[j], n, rs_pred(sh, radius_of(o, j))) for j in range(k)])
 
+    def get_compat_post(E, v, o):
+        """compat (Sholl(x, step=s)): radii s, 2s, ..., n*s -- the last below ceil(rmax), the next not -- and one straddle count per radius"""
+        res, sh = v["result"], o["self"]
+        st, m = to_z3(sh.fields["step"], "real"), sh.fields["rs"].nz()
+        if not isinstance(res, SArr):
+            return False
+        n, c = res.nz(), z3.ToReal(-z3.ToInt(-to_z3(sh.fields["rmax"], "real")))
+        for fam, cnt, r in ext_C10.counted_rows(E):
+            if r.arr.eq(res.arr):
+                j, i = z3.Int(fresh_name("j")), z3.Int(fresh_name("i"))
+                pred = rs_pred(sh, Sym((z3.ToReal(j) + 1) * st, "real"))
+                return z3.And(n >= 0, (z3.ToReal(n) + 1) * st >= c, z3.Or(n == 0, z3.ToReal(n) * st < c), fam.n_rows == n, fam.row.nz() == m,
+                              z3.ForAll([j, i], z3.Implies(z3.And(j >= 0, j < n, i >= 0, i < m), fam.at(j, i) == pred(i))))
+        return False
+
+    def get_compat_hint(E, vars):
+        sh = vars.get("self")
+        if sh is None or sh.fields.get("step") is None:
+            return
+        for nn in ghost_consts(E, "arange_len!"):
+            lemlib.use(E, "quotient-bounds", to_z3(sh.fields["step"], "real"), z3.ToReal(-z3.ToInt(-to_z3(sh.fields["rmax"], "real"))), z3.ToReal(nn))
+
+    def with_step_(sh, step):
+        sh.fields["step"] = step
+        return sh
+
     variants = {f"steps=array-of-{k}-radii": (lambda S, _k=k: dict(self=sholl_obj(S), steps=NArr((_k,), [S.real(f"step{j}") for j in range(_k)], "real"))) for k in (1, 2, 3)}
     variants.update({f"steps={k}": (lambda S, _k=k: dict(self=sholl_obj(S), steps=_k)) for k in (1, 2, 3)})
+    variants["step-given(compat),steps-ignored"] = lambda S: dict(self=with_step_(sholl_obj(S), S.real("step")))
     R.add(f"{SHOLL}:Sholl.get", prop="C10", variants=variants,
-          ensures=[("one-straddle-count-per-radius", get_post), ("sholl-object-unchanged", rs_unchanged)],
+          requires=[("a-given-step-is-positive", lambda E, v, o: True if v["self"].fields.get("step") is None else to_z3(v["self"].fields["step"], "real") > 0)],
+          options=dict(hints={"post/one-straddle-count-per-radius": get_compat_hint}),
+          ensures=[("one-straddle-count-per-radius", lambda E, v, o: (get_compat_post if o["self"].fields.get("step") is not None else get_post)(E, v, o)),
+                   ("sholl-object-unchanged", rs_unchanged)],
           notes="rs: symbolic (m, 2) array, rmax any real; steps: an array of 1-3 symbolic radii, or the int 1, 2, 3 "
                 "(radii j*rmax/(steps+1), j = 1..steps)")
 
@@ -309,6 +364,66 @@ def register_sholl(R):
           requires=[("steps-nonnegative", lambda E, v, o: True if isinstance(v["steps"], NArr) else to_z3(v["steps"], "int") >= 0)],
           ensures=[("exactly-steps-radii-j-times-rmax-over-steps-plus-1", lambda E, v, o: (rs_arr_post if isinstance(o["steps"], NArr) else rs_int_post)(E, v, o))],
           notes="steps: any int >= 0 (symbolic), rmax any real; or a given array of radii, returned as a fresh copy")
+
+    # ------------------------------------------------------------------ Sholl._get_rs
+    def with_step(sh, step):
+        sh.fields["step"] = step
+        return sh
+
+    def ceil_of(x, c):
+        """c is the integer ceil(x)"""
+        return z3.And(z3.ToReal(c) - 1 < x, x <= z3.ToReal(c))
+
+    def grs_post(E, v, o):
+        sh, res = o["self"], v["result"]
+        step = sh.fields.get("step")
+        if step is None:  # the radii of get_rs(rmax, steps)
+            if isinstance(o["steps"], NArr):
+                return rs_arr_post(E, v, dict(steps=o["steps"]))
+            return rs_int_post(E, v, dict(steps=o["steps"], rmax=sh.fields["rmax"]))
+        # compat: the multiples step, 2*step, ..., n*step; the last one lies below ceil(rmax), the next one does not
+        if not isinstance(res, SArr):
+            return False
+        st, n = to_z3(step, "real"), res.nz()
+        c, j = z3.ToReal(ceil_int(sh.fields["rmax"])), z3.Int(fresh_name("j"))
+        return z3.And(n >= 0, (z3.ToReal(n) + 1) * st >= c, z3.Or(n == 0, z3.ToReal(n) * st < c),
+                      z3.ForAll([j], z3.Implies(z3.And(j >= 0, j < n), to_z3(res.get(j), "real") == (z3.ToReal(j) + 1) * st)))
+
+    def ceil_int(x):
+        """ceil(x) as an integer: -floor(-x), floor = SMT-LIB to_int"""
+        return -z3.ToInt(-to_z3(x, "real"))
+
+    def grs_hint(E, vars):
+        sh, res = vars.get("self"), vars.get("result")
+        step = sh.fields.get("step") if sh is not None else None
+        if step is None:
+            return
+        for nn in ghost_consts(E, "arange_len!"):
+            st, c = to_z3(step, "real"), z3.ToReal(ceil_int(sh.fields["rmax"]))
+            lemlib.use(E, "quotient-bounds", st, c, z3.ToReal(nn))
+
+    R.add(f"{SHOLL}:Sholl._get_rs", prop="C10",
+          variants={"step=None,steps=int": lambda S: dict(self=sholl_obj(S), steps=S.int("steps")),
+                    "step=None,steps=array-of-3-radii": lambda S: dict(self=sholl_obj(S), steps=NArr((3,), [S.real(f"step{j}") for j in range(3)], "real")),
+                    "step-given(compat),steps-ignored": lambda S: dict(self=with_step(sholl_obj(S), S.real("step")), steps=S.int("steps"))},
+          requires=[("steps-nonnegative-and-a-given-step-positive", lambda E, v, o: z3.And(True if isinstance(v["steps"], NArr) else to_z3(v["steps"], "int") >= 0,
+                                                                                          True if v["self"].fields.get("step") is None else to_z3(v["self"].fields["step"], "real") > 0))],
+          ensures=[("steps-radii-j-times-rmax-over-steps-plus-1-or-the-given-radii-or-the-multiples-of-a-given-step-below-ceil-rmax", grs_post),
+                   ("sholl-object-unchanged", rs_unchanged)],
+          options=dict(hints={"post/steps-radii-j-times-rmax-over-steps-plus-1-or-the-given-radii-or-the-multiples-of-a-given-step-below-ceil-rmax": grs_hint}),
+          notes="rmax any real, steps any int >= 0 or 3 given radii; compat path (Sholl(x, step=...)): any step > 0")
+
+    # ------------------------------------------------------------------ Sholl.get_count (deprecated alias)
+    def gc_post(E, v, o):
+        res, sh = v["result"], o["self"]
+        if not (isinstance(res, NArr) and res.shape == (20,) and res.kind == "int"):
+            return False
+        n = sh.fields["rs"].nz()
+        return z3.And(*[is_count_of(E, res.items[j], n, rs_pred(sh, radius_of(dict(self=sh, steps=20), j))) for j in range(20)])
+
+    R.add(f"{SHOLL}:Sholl.get_count", prop="C10", setup=lambda S: dict(self=sholl_obj(S)),
+          ensures=[("twenty-int-straddle-counts-at-radii-j-times-rmax-over-21", gc_post), ("sholl-object-unchanged", rs_unchanged)],
+          notes="deprecated alias of get() with the default 20 steps; rs symbolic (m, 2), any m")
 
     # ----------------------------------------------------------------- Sholl.__init__
     def rooted_tree(S, n):
@@ -370,13 +485,31 @@ def register_sholl(R):
         iso = [d2(u, z3.IntVal(i), z3.IntVal(j)) == d2(t, z3.IntVal(i), z3.IntVal(j)) for i in range(n) for j in range(i)]
         return z3.And(nof(u) == n, *same, *iso)
 
+    def init_step_setup(n):
+        def f(S):
+            d = init_setup(n)(S)
+            d["step"] = S.real("step")
+            return d
+
+        return f
+
+    def init_step(E, v, o):
+        """compat: a given step is kept (and announced as deprecated, once); without one no instance attribute is set and nothing is warned"""
+        sh = v["self"]
+        if o.get("step") is None:
+            return "step" not in sh.fields and len(E.warn_log) == 0
+        return sh.fields.get("step") is v["step"] and len(E.warn_log) == 1
+
+    init_variants = {f"tree-of-{n}-nodes": init_setup(n) for n in (1, 2, 3, 4)}
+    init_variants.update({f"tree-of-{n}-nodes,step-given(compat)": init_step_setup(n) for n in (1, 3)})
     R.add(f"{SHOLL}:Sholl.__init__", prop="C10",
-          variants={f"tree-of-{n}-nodes": init_setup(n) for n in (1, 2, 3, 4)},
+          variants=init_variants,
           raises={"ValueError": ("no-segment", lambda E, v, o: col(v["tree"], "pid").n == 1)},
           ensures=[("rs-are-the-root-distances-of-the-segment-end-points", init_rs),
                    ("rmax-is-their-maximum", init_rmax),
                    ("kept-tree-is-a-fresh-isometric-copy-with-the-same-topology", init_tree),
-                   ("at-least-one-segment", lambda E, v, o: col(o["tree"], "pid").n >= 2)],
+                   ("at-least-one-segment", lambda E, v, o: col(o["tree"], "pid").n >= 2),
+                   ("a-given-step-is-kept-with-one-deprecation-warning-else-none", init_step)],
           options=dict(hints={"post/rs-are-the-root-distances-of-the-segment-end-points": init_rs_hint}),
           notes="number of nodes fixed per variant (1-4; a single node has no segment: ValueError); parent pointers and coordinates symbolic, node 0 the root")
 
@@ -430,16 +563,33 @@ def register_padding(R):
           notes="n, the length of v, its contents and the padding value symbolic; the input array is frozen (any write = failed frame obligation)")
 
     # ------------------------------------------- PopulationFeatureExtractor._get_impl
-    # the per-tree evaluator is abstract: tree p yields an arbitrary vector FV(p, .) of arbitrary length FLEN(p) >= 0
+    # the per-tree evaluator is abstract: asked for request number f (a feature name together with its keyword arguments),
+    # tree p yields an arbitrary vector FV(p, f, .) of arbitrary length FLEN(p, f) >= 0
     I_, R_ = z3.IntSort(), z3.RealSort()
-    FLEN, FV = z3.Function("feature_len", I_, I_), z3.Function("feature_val", I_, I_, R_)
+    FLEN, FV = z3.Function("feature_len", I_, I_, I_), z3.Function("feature_val", I_, I_, I_, R_)
+
+    def kw_key(x):
+        from fractions import Fraction
+
+        return x if isinstance(x, (int, str, bool, Fraction, type(None))) else ("object", id(x))
+
+    def feature_id(E, feature, kwargs):
+        """number of the request (feature name, keyword arguments): equal requests get the same number"""
+        key = (feature, tuple(sorted((k, kw_key(x)) for k, x in dict(kwargs).items())))
+        ids = E.ghost.setdefault("feature_ids", [])
+        if key not in ids:
+            ids.append(key)
+        return ids.index(key)
 
     def feat_get(E, recv, args, kwargs):
-        E.assumptions.add("abstract per-tree evaluator: Features.get(feature) of tree p is some float32 vector FV(p, .) of some length FLEN(p) >= 0")
-        E.assume(FLEN(recv.z) >= 0)
+        E.assumptions.add("abstract per-tree evaluator: Features.get(feature, **kw) of tree p is some float32 vector FV(p, request, .) of some length FLEN(p, request) >= 0")
+        feature = args[0] if args else kwargs.get("feature")
+        kw = {k: x for k, x in kwargs.items() if k != "feature"}
+        f = feature_id(E, feature, kw)
+        E.assume(FLEN(recv.z, f) >= 0)
         q = z3.Int(fresh_name("q"))
-        E.ghost.setdefault("feature_calls", []).append((recv.z, args[0] if args else None, dict(kwargs)))
-        return SArr(z3.Lambda([q], FV(recv.z, q)), FLEN(recv.z), "real", name="feat", dtype=np.dtype("float32"))
+        E.ghost.setdefault("feature_calls", []).append((recv.z, feature, kw))
+        return SArr(z3.Lambda([q], FV(recv.z, f, q)), FLEN(recv.z, f), "real", name="feat", dtype=np.dtype("float32"))
 
     def pop_setup(P):
         def f(S):
@@ -451,25 +601,36 @@ def register_padding(R):
 
         return f
 
-    def pop_post(E, v, o):
-        res, fs = v["result"], o["__fs__"]
+    def rows_padded(E, res, fs, feature, kwargs):
+        """THE statement for a population: `res` has one row per tree, as long as the longest per-tree vector, row p = the
+        vector of tree p followed by zeros"""
         if not (isinstance(res, S2Arr) and res.transposed and res.k == len(fs)):
             return False
+        f = feature_id(E, feature, kwargs)
         L = res.nz()
-        lens = [FLEN(f.z) for f in fs]
+        lens = [FLEN(x.z, f) for x in fs]
         longest = z3.And(z3.And(*[L >= x for x in lens]), z3.Or(*[L == x for x in lens]))
-        rows = [padded(SArr(res.cols[p], res.n, "real"), L, (lambda i, _f=f: FV(_f.z, i)), FLEN(f.z), 0) for p, f in enumerate(fs)]
+        rows = [padded(SArr(res.cols[p], res.n, "real"), L, (lambda i, _x=x: FV(_x.z, f, i)), FLEN(x.z, f), 0) for p, x in enumerate(fs)]
         return z3.And(longest, *rows)
 
+    def pop_post(E, v, o):
+        return rows_padded(E, v["result"], o["__fs__"], o["feature"], {})
+
+    def calls_are(E, expected):
+        """the ghost log of evaluator calls is exactly `expected` = [(evaluator, feature, kwargs)] in order"""
+        calls = E.ghost.get("feature_calls", [])
+        return len(calls) == len(expected) and all(c[0].eq(x.z) and c[1] == f and {k: kw_key(y) for k, y in c[2].items()} == {k: kw_key(y) for k, y in kw.items()}
+                                                    for c, (x, f, kw) in zip(calls, expected))
+
     def pop_calls(E, v, o):
-        calls, fs = E.ghost.get("feature_calls", []), o["__fs__"]
-        return len(calls) == len(fs) and all(c[0].eq(f.z) and c[1] == o["feature"] and c[2] == {} for c, f in zip(calls, fs))
+        return calls_are(E, [(x, o["feature"], {}) for x in o["__fs__"]])
 
     R.add(f"{FEX}:PopulationFeatureExtractor._get_impl", prop="C10",
           variants={f"population-of-{P}-trees": pop_setup(P) for P in (1, 2, 3)},
           ensures=[("one-zero-padded-row-per-tree-as-long-as-the-longest", pop_post),
                    ("each-tree-evaluated-once-in-order-with-the-requested-feature", pop_calls)],
           notes="number of trees fixed per variant (1-3); the per-tree vectors are abstract (any length, any contents)")
+    return dict(feat_get=feat_get, feature_id=feature_id, FLEN=FLEN, FV=FV, rows_padded=rows_padded, calls_are=calls_are)
 
 
 # ===========================================================================
@@ -520,30 +681,77 @@ def register_lmeasure(R):
     NODE_PROTO.update({"children": _children, "subtree": lambda E, recv, a, k: Opaque(SUB(recv.z), TREE_PROTO)})
 
     # ------------------------------------------------------------ partition_asymmetry
-    def pa_post(E, v, o):
-        n = o["n"].z
-        n1, n2 = z3.ToReal(NTIPS(SUB(CHILD(n, 0)))), z3.ToReal(NTIPS(SUB(CHILD(n, 1))))
-        r = to_z3(v["result"], "real")
+    from swcgeom.core.swc_utils import get_types as _gt
+
+    SOMA_T = _gt().soma
+
+    def sel_type0(t):
+        return to_z3(col(t, "type").items[0], "int")
+
+    def tnode(S, t, i):
+        from swcgeom.core.tree import Tree
+
+        return S.obj(Tree.Node, attach=t, idx=i, names=t.fields["names"])
+
+    def pa_value(r, n1, n2):
         return z3.If(n1 == n2, r == 0, r * (n1 + n2 - 2) == z3.If(n1 >= n2, n1 - n2, n2 - n1))
 
-    R.add(f"{LM}:LMeasure.partition_asymmetry", prop="C10",
-          setup=lambda S: dict(self=lm(S), n=S.opaque(NODE_PROTO, name="bif")),
-          raises={"AssertionError": ("not-a-bifurcation", lambda E, v, o: NCH(v["n"].z) != 2)},
+    def pa_sides(o):
+        """(number of children, n1, n2): abstract protocol, or the textbook tip counts below the two daughters of a real node"""
+        n = o["n"]
+        if isinstance(n, Opaque):
+            return NCH(n.z), z3.ToReal(NTIPS(SUB(CHILD(n.z, 0)))), z3.ToReal(NTIPS(SUB(CHILD(n.z, 1))))
+        tp = Topo(pids_of(n.fields["attach"]))
+        ks = tp.kids(n.fields["idx"])
+        n1, n2 = (tp.terminal_degree(ks[0]), tp.terminal_degree(ks[1])) if len(ks) == 2 else (0, 0)
+        return z3.IntVal(len(ks)), z3.RealVal(n1), z3.RealVal(n2)
+
+    def pa_post(E, v, o):
+        _, n1, n2 = pa_sides(o)
+        return pa_value(to_z3(v["result"], "real"), n1, n2)
+
+    pa_variants = {"abstract-protocol": lambda S: dict(self=lm(S), n=S.opaque(NODE_PROTO, name="bif"))}
+    for p in TOPOS + BIGGER:
+        for i in range(len(p)):
+            pa_variants[f"real-tree,{pname(p)},node={i}"] = (lambda S, _p=p, _i=i: dict(self=lm(S), n=tnode(S, topo_tree(S, _p), _i)))
+    R.add(f"{LM}:LMeasure.partition_asymmetry", prop="C10", variants=pa_variants, options=dict(inline_calls=INLINE),
+          raises={"AssertionError": ("not-a-bifurcation", lambda E, v, o: pa_sides(v)[0] != 2)},
           ensures=[("zero-if-n1-equals-n2-else-abs-difference-over-n1-plus-n2-minus-2", pa_post),
-                   ("is-a-bifurcation", lambda E, v, o: NCH(o["n"].z) == 2)],
-          notes="n1, n2 = abstract tip counts (>= 1) of the two daughters' subtrees; the traversal that produces them is not part of this contract")
+                   ("is-a-bifurcation", lambda E, v, o: pa_sides(o)[0] == 2)],
+          notes="abstract-protocol variant: n1, n2 = abstract tip counts (>= 1) of the two daughters' subtrees; real-tree variants: every node of every "
+                "fixed topology (21 trees of 1-4 nodes, 4 shapes of 6-7 nodes), children() / subtree() / get_tips() executed from source, n1, n2 = textbook "
+                "tip counts below the two daughters")
 
-    def count_carrier(name, param, F, via=None, note=""):
-        R.add(f"{LM}:LMeasure.{name}", prop="C10",
-              setup=lambda S: {"self": lm(S), param: S.opaque(TREE_PROTO if via is None else NODE_PROTO, name=param)},
-              ensures=[("is-the-length-of-the-listed-set", lambda E, v, o: to_z3(v["result"], "int") == F(o[param].z))],
-              notes="dispatch only: the count of the abstract list returned by the tree (the traversal is C04/C08)" + note)
+    def count_carrier(name, param, F, topo_count, via=None, note=""):
+        """two kinds of variants: (a) dispatch only, over the abstract topology protocol; (b) a REAL tree of a fixed topology
+        (the library's traversal / set operations executed from source), compared with the textbook count"""
+        variants = {"abstract-protocol": lambda S: {"self": lm(S), param: S.opaque(TREE_PROTO if via is None else NODE_PROTO, name=param)}}
+        for p in TOPOS + BIGGER:
+            if via is None:
+                variants["real-tree," + pname(p)] = (lambda S, _p=p: {"self": lm(S), param: topo_tree(S, _p)})
+            else:
+                for i in range(len(p)):
+                    variants[f"real-tree,{pname(p)},node={i}"] = (lambda S, _p=p, _i=i: {"self": lm(S), param: tnode(S, topo_tree(S, _p), _i)})
 
-    count_carrier("n_stems", "tree", lambda t: NCH(SOMA(t)))
-    count_carrier("n_bifs", "tree", NFUR)
-    count_carrier("n_branch", "tree", NBR)
-    count_carrier("n_tips", "tree", NTIPS)
-    count_carrier("terminal_degree", "node", lambda n: NTIPS(SUB(n)), via="node")
+        def post(E, v, o):
+            x = o[param]
+            if isinstance(x, Opaque):
+                return to_z3(v["result"], "int") == F(x.z)
+            t, i = (x, None) if via is None else (x.fields["attach"], x.fields["idx"])
+            return isinstance(v["result"], int) and v["result"] == topo_count(Topo(pids_of(t)), i)
+
+        soma = (lambda x: sel_type0(x) == SOMA_T)
+        R.add(f"{LM}:LMeasure.{name}", prop="C10", variants=variants, options=dict(inline_calls=INLINE),
+              raises=({"ValueError": ("root-is-not-typed-soma", lambda E, v, o: False if isinstance(v[param], Opaque) else z3.Not(soma(v[param])))} if name == "n_stems" else None),
+              ensures=[("is-the-length-of-the-listed-set", post)],
+              notes="abstract-protocol variant: dispatch only (the count of the abstract list returned by the tree); real-tree variants: topology fixed per "
+                    "variant (21 trees of 1-4 nodes, 4 shapes of 6-7 nodes), the library's own traversal executed from source, compared with the textbook count" + note)
+
+    count_carrier("n_stems", "tree", lambda t: NCH(SOMA(t)), lambda tp, i: len(tp.kids(0)))
+    count_carrier("n_bifs", "tree", NFUR, lambda tp, i: len(tp.furcations()))
+    count_carrier("n_branch", "tree", NBR, lambda tp, i: len(tp.branches()))
+    count_carrier("n_tips", "tree", NTIPS, lambda tp, i: len(tp.tips()))
+    count_carrier("terminal_degree", "node", lambda n: NTIPS(SUB(n)), lambda tp, i: tp.terminal_degree(i), via="node")
 
     # ------------------------------------------------------------------ fragmentation
     def branch_sym(S):
@@ -830,12 +1038,54 @@ def register_frontend(R, H):
     for nm in ("node_radial_distance", "furcation_count", "tip_count"):
         variants[f"{nm},tree-of-3-nodes"] = (lambda S, _nm=nm: dict(self=feats(S, H["fixed_tree"](S, 3)), feature=_nm))
     variants["unknown-name"] = lambda S: dict(self=feats(S, sym_tree(S, "t")), feature="no_such_feature")
+    variants["unknown-module"] = lambda S: dict(self=feats(S, sym_tree(S, "t")), feature="soma_count")
     variants["bifurcation_count"] = lambda S: dict(self=feats(S, sym_tree(S, "t")), feature="bifurcation_count")
+    # features that need the traversal: a few fixed topologies (the evaluators themselves are verified on all of them)
+    FRONT = [[-1, 0, 0, 1], [-1, 0, 1, 1], [-1, 2, 0], [-1, 0, 1, 2, 2, 3, 4]]
+    TRAVERSAL = ("branch_length", "branch_tortuosity", "path_length", "path_tortuosity", "node_branch_order", "furcation_radial_distance", "tip_radial_distance")
+    for nm in TRAVERSAL:
+        for p in FRONT:
+            variants[f"{nm},{pname(p)}"] = (lambda S, _nm=nm, _p=p: dict(self=feats(S, topo_tree(S, _p)), feature=_nm))
+    from pyvc.values import PDict as PDict_
+
+    def sholl_feats(S):
+        return S.obj(Features, tree=None, sholl=sholl_obj(S))
+
+    variants["sholl,steps=2-as-keyword-argument"] = lambda S: dict(self=sholl_feats(S), feature="sholl", kwargs=PDict_(dict(steps=2)))
+    variants["sholl,steps=2-in-a-name-and-arguments-pair"] = lambda S: dict(self=sholl_feats(S), feature=("sholl", PDict_(dict(steps=2))))
+    variants["sholl,pair-overridden-by-keyword-argument"] = lambda S: dict(self=sholl_feats(S), feature=("sholl", PDict_(dict(steps=3))), kwargs=PDict_(dict(steps=2)))
+
+    # the module objects (node_features, branch_features, ...) are cached_properties of Features: a WARM module cache is used as it is.
+    # The cached module holds a reference to the tree it was built for, so edits of that tree are seen; only re-binding
+    # `features.tree` to another tree leaves the cache pointing at the old one -- the variant below states exactly that.
+    def warm_module(S):
+        from swcgeom.analysis.features import NodeFeatures
+
+        return dict(self=S.obj(Features, tree=sym_tree(S, "t"), node_features=S.obj(NodeFeatures, tree=sym_tree(S, "u"))), feature="node_count")
+
+    variants["node_count,warm-module-cache-built-for-another-tree"] = warm_module
+
+    def view(o, cls=None, sub=False):
+        """the object a feature-class clause expects, for the tree held by the Features object"""
+        import types
+
+        t = o["self"].fields["tree"]
+        nf = types.SimpleNamespace(cls=None, fields=dict(tree=t))
+        return dict(self=types.SimpleNamespace(cls=cls, fields=dict(_features=nf)) if sub else nf)
 
     def get_post(E, v, o):
+        from swcgeom.analysis.features import FurcationFeatures, TipFeatures
+        from swcgeom.core.tree import Tree
+
         f, t = o["feature"], o["self"].fields["tree"]
+        if isinstance(f, tuple) or f == "sholl":
+            sh, res = o["self"].fields["sholl"], v["result"]
+            radii = [Sym(z3.RealVal(j + 1) * to_z3(sh.fields["rmax"], "real") / z3.RealVal(3), "real") for j in range(2)]
+            return (isinstance(res, NArr) and res.shape == (2,) and res.kind == "real"
+                    and z3.And(*[is_count_of(E, x, sh.fields["rs"].nz(), rs_pred(sh, r)) for x, r in zip(res.items, radii)]))
         if f == "node_count":
-            return one_number(E, v, z3.ToReal(nof(t)))
+            cached = o["self"].fields.get("node_features")  # warm module cache: the tree the cached module was built for
+            return one_number(E, v, z3.ToReal(nof(cached.fields["tree"] if cached is not None else t)))
         if f == "length":
             return one_number(E, v, tree_len(E, t))
         res = v["result"]
@@ -845,11 +1095,1021 @@ def register_frontend(R, H):
         if f in ("furcation_count", "tip_count"):
             pred = H["is_furcation"] if f == "furcation_count" else H["is_tip"]
             return one_number(E, v, z3.ToReal(sum((z3.If(pred(t, i), 1, 0) for i in range(3)), z3.IntVal(0))))
+        # the traversal-backed features: the very clauses of the feature classes (see register_topology_features)
+        if f in ("branch_length", "branch_tortuosity"):
+            return H["multiset"](f.split("_")[1], Topo.branches, "_branches")(E, v, view(o))
+        if f in ("path_length", "path_tortuosity"):
+            return H["multiset"](f.split("_")[1], Topo.paths, "_paths")(E, v, view(o))
+        if f == "node_branch_order":
+            return H["bo_post"](E, v, view(o))
+        if f in ("furcation_radial_distance", "tip_radial_distance"):
+            return H["srd_post"](E, v, view(o, FurcationFeatures if f.startswith("furcation") else TipFeatures, sub=True))
         return False
 
-    R.add(f"{FEX}:Features.get", prop="C10", variants=variants,
-          raises={"ValueError": ("no-evaluator-of-that-name-or-root-not-typed-soma", lambda E, v, o: True if v["feature"] in ("no_such_feature", "bifurcation_count")
-                                 else (z3.Not(H["soma_typed"](v["self"].fields["tree"])) if v["feature"] == "node_radial_distance" else False))},
+    def get_raises(E, v, o):
+        f = v["feature"]
+        if f in ("no_such_feature", "soma_count", "bifurcation_count"):
+            return True
+        if f in ("node_radial_distance", "furcation_radial_distance", "tip_radial_distance"):
+            return z3.Not(H["soma_typed"](v["self"].fields["tree"]))
+        return False
+
+    R.add(f"{FEX}:Features.get", prop="C10", variants=variants, options=dict(inline_calls=INLINE),
+          raises={"ValueError": ("no-evaluator-of-that-name-or-root-not-typed-soma", get_raises)},
           ensures=[("the-number-of-the-named-feature", get_post)],
           notes="dispatch by name: node_count (symbolic tree), length (trees of 1-3 nodes), node_radial_distance / furcation_count / "
-                "tip_count (trees of 3 nodes), an unknown name and the deprecated bifurcation_count (no evaluator: ValueError)")
+                "tip_count (trees of 3 nodes), branch / path length and tortuosity, node_branch_order, furcation / tip radial distance (4 fixed "
+                "topologies of 3-7 nodes, same clauses as the feature classes), sholl with steps given as keyword argument or in a (name, arguments) pair "
+                "(warm Sholl cache), an unknown name, an unknown module prefix and the deprecated bifurcation_count (no evaluator: ValueError).  volume is NOT "
+                "covered here (get_volume is property C14)")
+
+
+# ===========================================================================
+# features that need the traversal: trees of a FIXED topology (concrete parent vector), all coordinates symbolic
+class Topo:
+    """THE textbook definitions over a concrete parent vector (node i has parent pids[i], -1 for the root), written
+    with explicit loops and independent of the library: children, tips, furcations, root paths, branches, subtrees"""
+
+    def __init__(self, pids):
+        self.pids, self.n = list(pids), len(pids)
+        self.root = self.pids.index(-1)
+
+    def kids(self, i):
+        return [j for j in range(self.n) if self.pids[j] == i]
+
+    def is_tip(self, i):
+        return len(self.kids(i)) == 0
+
+    def is_furcation(self, i):
+        return len(self.kids(i)) > 1
+
+    def tips(self):
+        return [i for i in range(self.n) if self.is_tip(i)]
+
+    def furcations(self):
+        return [i for i in range(self.n) if self.is_furcation(i)]
+
+    def root_path(self, i):
+        out = [i]
+        while self.pids[out[-1]] != -1:
+            out.append(self.pids[out[-1]])
+        return out[::-1]
+
+    def paths(self):
+        """one root-to-tip node list per tip"""
+        return [self.root_path(i) for i in self.tips()]
+
+    def branches(self):
+        """maximal chains that start at the root or a furcation, run through pass-through nodes only and end at a
+        furcation or a tip"""
+        out = []
+        for b in range(self.n):
+            if b == self.root or self.is_furcation(b):
+                for c in self.kids(b):
+                    chain = [b, c]
+                    while len(self.kids(chain[-1])) == 1:
+                        chain.append(self.kids(chain[-1])[0])
+                    out.append(chain)
+        return out
+
+    def subtree(self, i):
+        return [j for j in range(self.n) if i in self.root_path(j)]
+
+    def terminal_degree(self, i):
+        return sum(1 for j in self.subtree(i) if self.is_tip(j))
+
+    def remote_end(self, c):
+        while len(self.kids(c)) == 1:
+            c = self.kids(c)[0]
+        return c
+
+    def critical_order(self):
+        """critical node (root, furcation, tip) -> number of branches between it and the root"""
+        out = {}
+        for c in range(self.n):
+            if c == self.root or self.is_tip(c) or self.is_furcation(c):
+                out[c] = sum(1 for a in self.root_path(c)[:-1] if a == self.root or self.is_furcation(a))
+        return out
+
+
+def rooted_trees(n):
+    """every parent vector of a labelled tree on 0..n-1 with root 0 (any numbering of the other nodes)"""
+    import itertools
+
+    out = []
+    for ps in itertools.product(range(n), repeat=n - 1):
+        pids = [-1] + list(ps)
+        ok = True
+        for i in range(1, n):
+            seen, j = set(), i
+            while j != 0 and j not in seen:
+                seen.add(j)
+                j = pids[j]
+            ok = ok and j == 0
+        if ok:
+            out.append(pids)
+    return out
+
+
+TOPOS = [p for n in (1, 2, 3, 4) for p in rooted_trees(n)]  # 1 + 1 + 3 + 16 topologies
+BIGGER = [[-1, 0, 1, 1, 2, 3], [-1, 0, 1, 2, 2, 3, 4], [-1, 0, 0, 1, 1, 2], [-1, 0, 1, 1, 1, 2]]  # stems / pass-through nodes below a furcation
+INLINE = ["swc_utils/base.py:traverse", "swc_utils/base.py:_traverse_dfs", ":Tree.traverse", ":Tree.Node.traverse",
+          ":Path.length", ":Path.tortuosity", ":Path.straight_line_distance", ":Tree.Node.radial_distance", ":Tree.length",
+          ":to_sub_topology", ":propagate_removal", ":to_subtree_impl", ":get_subtree_impl", ":to_subtree", ":Tree.Node.parent", ":Tree.Node.children",
+          ":Tree.get_tips", ":Tree.get_furcations", ":Tree.get_branches", ":Tree.Node.branch", ":Node.is_furcation", ":Node.is_tip", ":Node.distance"]
+
+
+POP_INLINE = [f":{c}.{m}" for c in ("Population", "Populations") for m in ("__len__", "__iter__", "__getitem__")]
+
+
+def pname(pids):
+    return "pid=" + ",".join(str(p) for p in pids)
+
+
+def topo_tree(S, pids, name="t"):
+    """a Tree whose id / pid columns are the given CONCRETE topology (id[i] = i) and whose type, coordinate and radius
+    columns are symbolic; frozen: any store into it is a failed frame obligation"""
+    from pyvc.values import PDict, PList
+    from swcgeom.core.swc_utils import get_names, get_types
+    from swcgeom.core.tree import Tree
+
+    n = len(pids)
+    cols = {}
+    for c, k in COLS.items():
+        if c == "id":
+            its = list(range(n))
+        elif c == "pid":
+            its = list(pids)
+        else:
+            its = [S.int(f"{name}_{c}{i}") if k == "int" else S.real(f"{name}_{c}{i}") for i in range(n)]
+        a = NArr((n,), its, k)
+        a.frozen = True
+        cols[c] = a
+    nd = PDict(cols)
+    nd.frozen = True
+    t = S.obj(Tree, ndata=nd, names=get_names(), types=get_types(), source="", comments=PList([]))
+    t.frozen = True
+    return t
+
+
+def pids_of(t):
+    return [int(p) for p in col(t, "pid").items]
+
+
+def same_multiset(got, want, eq):
+    """`got` is a permutation of `want` (element relation `eq`)"""
+    import itertools
+
+    if len(got) != len(want):
+        return False
+    if not got:
+        return True
+    m = [[eq(g, w) for w in want] for g in got]
+    return z3.Or(*[z3.And(*[m[a][p[a]] for a in range(len(got))]) for p in itertools.permutations(range(len(want)))])
+
+
+def register_topology_features(R, H):
+    from swcgeom.analysis.features import BranchFeatures, PathFeatures
+    from swcgeom.core.tree import Tree
+
+    as_arrays = H["as_arrays"]
+
+    class Geo:
+        """distances of one tree inside one clause (each dist term is built once); node positions concrete or symbolic"""
+
+        def __init__(self, E, t):
+            self.E, self.memo = E, {}
+            self.ta = as_arrays(t) if isinstance(col(t, "pid"), NArr) else t
+
+        def d(self, a, b):
+            za, zb = to_z3(a, "int"), to_z3(b, "int")
+            k = tuple(sorted((za.sexpr(), zb.sexpr())))
+            if k not in self.memo:
+                self.memo[k] = dist(self.E, self.ta, za, zb)
+            return self.memo[k]
+
+        def chain_len(self, nodes):
+            ys = [self.d(a, b) for a, b in zip(nodes, nodes[1:])]
+            return sum(ys) if ys else z3.RealVal(0)
+
+        def tort_is(self, nodes, r):
+            ln, c = self.chain_len(nodes), self.d(nodes[-1], nodes[0])
+            return z3.If(ln == 0, r == 1, r * ln == c)
+
+    from pyvc.values import Obj as Obj_, PList as PList_
+
+    def node_lists(objs, t, cls, concrete=True):
+        """the node lists of a list of Path / Branch views on tree t (None if it is anything else)"""
+        if not (isinstance(objs, PList_) and objs.items is not None):
+            return None
+        out = []
+        for b in objs.items:
+            idx = b.fields.get("idx") if isinstance(b, Obj_) else None
+            if not (isinstance(b, Obj_) and b.cls is cls and b.fields.get("attach") is t and isinstance(idx, NArr) and idx.ndim == 1):
+                return None
+            if concrete and not all(isinstance(a, int) for a in idx.items):
+                return None
+            out.append(list(idx.items))
+        return out
+
+    # ------------------------------------------------ BranchFeatures / PathFeatures
+    # The node lists are kept in a functools.cached_property (`_branches` / `_paths`).  What the contract states about
+    # the cache: on a COLD cache the call fills it with exactly the textbook chains of the tree as it is now; on a WARM
+    # cache the list is used as it is and never refreshed (so the TOPOLOGY may be stale if the tree's parent column was
+    # edited after the first call -- nothing in the class invalidates it), while the COORDINATES are always read through
+    # the tree (the cached entries are views: attach + node ids), so the values follow coordinate edits.
+    def is_cold(o, field):
+        return o["self"].fields.get(field) is None
+
+    def listed(field, cls, want):
+        """cold: the cache (filled by this call) holds exactly the textbook chains of the tree, each once"""
+        def f(E, v, o):
+            if not is_cold(o, field):
+                return True
+            t = o["self"].fields["tree"]
+            got = node_lists(v["self"].fields.get(field), v["self"].fields["tree"], cls)
+            return got is not None and sorted(got) == sorted(want(Topo(pids_of(t))))
+
+        return f
+
+    def kept(field):
+        """warm: the cached list object and its entries are exactly what they were on entry"""
+        def f(E, v, o):
+            if is_cold(o, field):
+                return True
+            a, b = v["self"].fields.get(field), o["self"].fields[field]
+            if not (isinstance(a, PList_) and a.uid == b.uid and a.items is not None and len(a.items) == len(b.items)):
+                return False
+            ok = True
+            for x, y in zip(a.items, b.items):
+                ix, iy = x.fields["idx"], y.fields["idx"]
+                ok = ok and x.uid == y.uid and x.fields["attach"].uid == y.fields["attach"].uid and ix.shape == iy.shape
+                ok = ok and all(z3.is_true(z3.simplify(to_z3(p, "int") == to_z3(q, "int"))) for p, q in zip(ix.items, iy.items))
+            return ok
+
+        return f
+
+    def per_chain(field, cls, what):
+        """result[k] is the length / tortuosity of the k-th listed chain, computed from the tree's CURRENT coordinates"""
+        def f(E, v, o):
+            t = v["self"].fields["tree"]
+            got, res = node_lists(v["self"].fields.get(field), t, cls, concrete=False), v["result"]
+            if got is None or not (isinstance(res, NArr) and res.shape == (len(got),)):
+                return False
+            g = Geo(E, t)
+            if what == "length":
+                return z3.And(*[to_z3(res.items[k], "real") == g.chain_len(nodes) for k, nodes in enumerate(got)]) if got else True
+            return z3.And(*[g.tort_is(nodes, to_z3(res.items[k], "real")) for k, nodes in enumerate(got)]) if got else True
+
+        return f
+
+    def multiset(what, want, field):
+        """THE top-level statement (cold cache): the returned values are, as a multiset, the values of the textbook chains"""
+        def f(E, v, o):
+            if not is_cold(o, field):
+                return True
+            t, res = o["self"].fields["tree"], v["result"]
+            chains = want(Topo(pids_of(t)))
+            if not (isinstance(res, NArr) and res.shape == (len(chains),)):
+                return False
+            g = Geo(E, t)
+            if what == "length":
+                return same_multiset(res.items, [g.chain_len(c) for c in chains], lambda r, w: to_z3(r, "real") == w)
+            return same_multiset(res.items, chains, lambda r, nodes: g.tort_is(nodes, to_z3(r, "real")))
+
+        return f
+
+    def sums_to_tree_length(E, v, o):
+        """the property's first sentence: the tree length (sum of parent-child distances) equals the summed length of its branches"""
+        if not is_cold(o, "_branches"):
+            return True
+        t, res = o["self"].fields["tree"], v["result"]
+        g, pids = Geo(E, t), pids_of(t)
+        total = sum((g.d(p, i) for i, p in enumerate(pids) if p != -1), z3.RealVal(0))
+        return isinstance(res, NArr) and sum((to_z3(x, "real") for x in res.items), z3.RealVal(0)) == total
+
+    def count_post(want, field):
+        def f(E, v, o):
+            if is_cold(o, field):
+                return v["result"] == len(want(Topo(pids_of(o["self"].fields["tree"]))))
+            return v["result"] == len(o["self"].fields[field].items)
+
+        return f
+
+    def variants_of(cls, field, ccls):
+        out = {"cold-cache," + pname(p): (lambda S, _p=p: dict(self=S.obj(cls, tree=topo_tree(S, _p)))) for p in TOPOS + BIGGER}
+
+        def warm(S):
+            t = sym_tree(S, "t")
+            return dict(self=S.obj(cls, **{"tree": t, field: PList_([path_obj(S, t, 2, cls=ccls), path_obj(S, t, 3, cls=ccls)])}))
+
+        out["warm-cache,two-listed-chains-of-2-and-3-nodes"] = warm
+        out["warm-cache,empty-list"] = lambda S: dict(self=S.obj(cls, **{"tree": sym_tree(S, "t"), field: PList_([])}))
+        return out
+
+    SIZE_NOTE = ("cold cache: topology fixed per variant -- every labelled rooted tree of 1-4 nodes (21 parent vectors) and 4 shapes of 6-7 nodes; "
+                 "type, coordinates and radii symbolic; the traversal (Tree.traverse / swc_utils.traverse) is executed from its real source.  "
+                 "warm cache: a tree of symbolic size, the cached list holds two views of 2 and 3 arbitrary nodes (or is empty)")
+    for cls, field, ccls, want, key in ((BranchFeatures, "_branches", Tree.Branch, Topo.branches, "branches"), (PathFeatures, "_paths", Tree.Path, Topo.paths, "paths")):
+        nm = cls.__name__
+        common = [(f"cold-cache-is-filled-with-exactly-the-textbook-{key}", listed(field, ccls, want)),
+                  ("warm-cache-is-used-as-it-is-and-left-unchanged", kept(field))]
+        R.add(f"{FEAT}:{nm}.get_length", prop="C10", variants=variants_of(cls, field, ccls), options=dict(inline_calls=INLINE),
+              ensures=[(f"cold-cache:multiset-of-the-lengths-of-the-textbook-{key}", multiset("length", want, field)),
+                       ("value-k-is-the-sum-of-consecutive-node-distances-of-listed-chain-k", per_chain(field, ccls, "length"))] + common
+              + ([("cold-cache:branch-lengths-sum-to-the-tree-length-the-sum-of-parent-child-distances", sums_to_tree_length)] if cls is BranchFeatures else []),
+              notes=SIZE_NOTE)
+        def tort_hint(E, vars, _field=field, _ccls=ccls):
+            """proof step per listed chain: (chord / length) * length = chord when the length is not zero (lemma instance)"""
+            slf = vars.get("self")
+            got = node_lists(slf.fields.get(_field), slf.fields["tree"], _ccls, concrete=False) if isinstance(slf, Obj_) else None
+            if got:
+                g = Geo(E, slf.fields["tree"])
+                for nodes in got:
+                    lemlib.use(E, "quotient-times-divisor", g.d(nodes[-1], nodes[0]), g.chain_len(nodes))
+
+        R.add(f"{FEAT}:{nm}.get_tortuosity", prop="C10", variants=variants_of(cls, field, ccls),
+              options=dict(inline_calls=INLINE, hints={f"post/cold-cache:multiset-of-the-tortuosities-of-the-textbook-{key}": tort_hint}),
+              ensures=[(f"cold-cache:multiset-of-the-tortuosities-of-the-textbook-{key}", multiset("tortuosity", want, field)),
+                       ("value-k-is-chord-over-length-of-listed-chain-k-or-one-for-zero-length", per_chain(field, ccls, "tortuosity"))] + common,
+              notes=SIZE_NOTE)
+        R.add(f"{FEAT}:{nm}.get_count", prop="C10", variants=variants_of(cls, field, ccls), options=dict(inline_calls=INLINE),
+              ensures=[(f"number-of-textbook-{key}-on-a-cold-cache-else-of-listed-chains", count_post(want, field))] + common,
+              notes=SIZE_NOTE)
+
+    # ------------------------------------------------ BranchFeatures.calc_angle / get_angle
+    # angle[i][j] = arccos(clip(u_i . u_j / (|u_i| |u_j| + eps))), u_i = end - start of branch i.  Through squared distances:
+    # (a - b).(c - d) = (d2(a,d) + d2(b,c) - d2(a,c) - d2(b,d)) / 2  (polarisation for two difference vectors)
+    ARCCOS_ = z3.Function("arccos", z3.RealSort(), z3.RealSort())
+
+    def ends_of(branches):
+        return [(b.fields["idx"].items[0], b.fields["idx"].items[-1]) for b in branches.items]
+
+    def dot_through_d2(g, si, ei, sj, ej):
+        sq = lambda a, b: g.d(a, b) * g.d(a, b)
+        return (sq(ei, sj) + sq(si, ej) - sq(ei, ej) - sq(si, sj)) / 2
+
+    def angle_matrix_is(E, res, t, ends, eps):
+        N = len(ends)
+        if not (isinstance(res, NArr) and res.shape == (N, N)):
+            return False
+        g, ez, out = Geo(E, t), to_z3(eps, "real"), []
+        for i, (si, ei) in enumerate(ends):
+            for j, (sj, ej) in enumerate(ends):
+                c = dot_through_d2(g, si, ei, sj, ej) / (g.d(ei, si) * g.d(ej, sj) + ez)
+                out.append(to_z3(res.items[i * N + j], "real") == ARCCOS_(z3.If(c < -1, z3.RealVal(-1), z3.If(c > 1, z3.RealVal(1), c))))
+        return z3.And(*out) if out else True
+
+    def angle_hint(get_branches, get_tree):
+        def h(E, vars):
+            vec, br = vars.get("vector"), get_branches(vars)
+            if not isinstance(vec, NArr) or br is None:
+                return
+            ends, t = ends_of(br), get_tree(vars, br)
+            u = [[to_z3(vec.items[3 * i + k], "real") for k in range(3)] for i in range(len(ends))]
+            g = Geo(E, t)
+            zi = lambda a: to_z3(a, "int")
+            for i, (si, ei) in enumerate(ends):
+                for j, (sj, ej) in enumerate(ends):
+                    if j < i:
+                        continue
+                    dz = sum((u[i][k] * u[j][k] for k in range(3)), z3.RealVal(0))
+                    poly = d2(g.ta, zi(ei), zi(sj)) + d2(g.ta, zi(si), zi(ej)) - d2(g.ta, zi(ei), zi(ej)) - d2(g.ta, zi(si), zi(sj))
+                    E.prove(f"BranchFeatures.calc_angle/step/polarisation-identity-{i}-{j}", 2 * dz == poly, "proof step")
+                    E.prove(f"BranchFeatures.calc_angle/step/dot-product-{i}-{j}-through-the-four-distances", dz == dot_through_d2(g, si, ei, sj, ej), "proof step")
+
+        return h
+
+    def ca_setup(lens):
+        def f(S):
+            t = sym_tree(S, "t")
+            return dict(branches=PList_([path_obj(S, t, L, cls=Tree.Branch) for L in lens]), eps=S.real("eps"), __tree__=t)
+
+        return f
+
+    LBL = "arccos-of-the-clipped-cosine-between-the-end-to-end-vectors-of-every-pair-of-branches"
+    R.add(f"{FEAT}:BranchFeatures.calc_angle", prop="C10",
+          variants={"one-branch-of-2-nodes": ca_setup([2]), "two-branches-of-2-and-3-nodes": ca_setup([2, 3]), "three-branches-of-2-2-4-nodes": ca_setup([2, 2, 4])},
+          requires=[("eps-positive", lambda E, v, o: to_z3(v["eps"], "real") > 0)],
+          options=dict(inline_calls=INLINE, hints={"post/" + LBL: angle_hint(lambda vars: vars.get("branches"), lambda vars, br: vars["__tree__"])}),
+          ensures=[(LBL, lambda E, v, o: angle_matrix_is(E, v["result"], o["__tree__"], ends_of(o["branches"]), o["eps"]))],
+          notes="1-3 branches (fixed node counts) over a tree of symbolic size, node ids and coordinates symbolic, eps any positive real (the regulariser of the "
+                "code's denominator is part of the stated formula); arccos uninterpreted.  An empty list is outside (np.matmul of an empty 1-D array)")
+
+    def ga_post(E, v, o):
+        t = v["self"].fields["tree"]
+        cache = v["self"].fields.get("_branches")
+        if node_lists(cache, t, Tree.Branch) is None:
+            return False
+        return angle_matrix_is(E, v["result"], t, ends_of(cache), o["eps"])
+
+    def ga_variants():
+        out = {}
+        for p in TOPOS + BIGGER:
+            if len(p) >= 2 and p != [-1, 0, 0, 1, 1, 2]:  # that shape has four branches from two start points: 16 entries, ~6 s -- left to calc_angle (any 3 branches)
+                out["cold-cache,default-eps," + pname(p)] = (lambda S, _p=p: dict(self=S.obj(BranchFeatures, tree=topo_tree(S, _p))))
+        for p in ([-1, 0, 0, 1], [-1, 0, 1, 1]):
+            out["cold-cache,any-positive-eps," + pname(p)] = (lambda S, _p=p: dict(self=S.obj(BranchFeatures, tree=topo_tree(S, _p)), eps=S.real("eps")))
+        return out
+
+    LBL2 = "entry-i-j-is-the-angle-between-the-end-to-end-vectors-of-listed-branches-i-and-j"
+    R.add(f"{FEAT}:BranchFeatures.get_angle", prop="C10", variants=ga_variants(),
+          requires=[("eps-positive", lambda E, v, o: to_z3(v["eps"], "real") > 0)],
+          options=dict(inline_calls=INLINE, hints={"post/" + LBL2: angle_hint(lambda vars: vars["self"].fields.get("_branches") if isinstance(vars.get("self"), Obj_) else None,
+                                                                             lambda vars, br: vars["self"].fields["tree"])}),
+          ensures=[("cold-cache-is-filled-with-exactly-the-textbook-branches", listed("_branches", Tree.Branch, Topo.branches)), (LBL2, ga_post)],
+          notes="every labelled rooted tree of 2-4 nodes and 3 shapes of 6-7 nodes (a single node has no branch: the numpy calls raise, outside); default eps 1e-7 or any eps > 0")
+
+    # ------------------------------------------------ NodeFeatures.get_branch_order
+    from swcgeom.analysis.features import FurcationFeatures, NodeFeatures, TipFeatures
+
+    def bo_post(E, v, o):
+        t, res = o["self"].fields["tree"], v["result"]
+        want = sorted(Topo(pids_of(t)).critical_order().values())
+        return isinstance(res, NArr) and res.ndim == 1 and all(isinstance(x, int) for x in res.items) and sorted(res.items) == want
+
+    R.add(f"{FEAT}:NodeFeatures.get_branch_order", prop="C10",
+          variants={pname(p): (lambda S, _p=p: dict(self=S.obj(NodeFeatures, tree=topo_tree(S, _p)))) for p in TOPOS + BIGGER},
+          options=dict(inline_calls=INLINE),
+          ensures=[("multiset-of-the-number-of-branches-between-each-critical-node-and-the-root", bo_post)],
+          notes="one value per critical node (root, furcations, tips); topology fixed per variant (21 trees of 1-4 nodes, 4 shapes of 6-7 nodes); "
+                "BranchTree.from_tree, to_sub_topology and the traversal are executed from their real source")
+
+    # ------------------------------------------------ _SubsetNodesFeatures.get_radial_distance / from_tree
+    soma_typed = H["soma_typed"]
+
+    def subset_nodes(cls, tp):
+        return tp.furcations() if cls is FurcationFeatures else tp.tips()
+
+    def srd_setup(cls, pids, mask=None):
+        def f(S):
+            fields = dict(_features=S.obj(NodeFeatures, tree=topo_tree(S, pids)))
+            if mask is not None:
+                fields["nodes"] = NArr((len(mask),), list(mask), "bool")
+            return dict(self=S.obj(cls, **fields))
+
+        return f
+
+    def srd_post(E, v, o):
+        s = o["self"]
+        t, res = s.fields["_features"].fields["tree"], v["result"]
+        if "nodes" in s.fields:  # warm cache: the mask as it was cached
+            sel = [i for i, b in enumerate(s.fields["nodes"].items) if b]
+        else:
+            sel = subset_nodes(s.cls, Topo(pids_of(t)))
+        if not (isinstance(res, NArr) and res.shape == (len(sel),) and res.root().uid not in E.entry_uids):
+            return False
+        g = Geo(E, t)
+        return z3.And(*[to_z3(res.items[k], "real") == g.d(i, 0) for k, i in enumerate(sel)]) if sel else True
+
+    def mask_cached(E, v, o):
+        s = o["self"]
+        t, m = s.fields["_features"].fields["tree"], v["self"].fields.get("nodes")
+        if "nodes" in s.fields:
+            return isinstance(m, NArr) and m.uid == s.fields["nodes"].uid and list(m.items) == list(s.fields["nodes"].items)
+        sel = subset_nodes(s.cls, Topo(pids_of(t)))
+        return isinstance(m, NArr) and m.ndim == 1 and [E.truth(x) for x in m.items] == [i in sel for i in range(len(pids_of(t)))]
+
+    variants = {}
+    for cls, nm in ((FurcationFeatures, "furcations"), (TipFeatures, "tips")):
+        for p in TOPOS + BIGGER:
+            variants[f"{nm},cold-cache,{pname(p)}"] = srd_setup(cls, p)
+        variants[f"{nm},warm-cache,mask=1,0,1,pid=-1,0,1"] = srd_setup(cls, [-1, 0, 1], [True, False, True])
+    R.add(f"{FEAT}:_SubsetNodesFeatures.get_radial_distance", prop="C10", variants=variants, options=dict(inline_calls=INLINE),
+          raises={"ValueError": ("root-is-not-typed-soma", lambda E, v, o: z3.Not(soma_typed(v["self"].fields["_features"].fields["tree"])))},
+          ensures=[("distance-to-node-0-of-every-node-of-the-subset-in-node-order", srd_post),
+                   ("root-is-typed-soma", lambda E, v, o: soma_typed(o["self"].fields["_features"].fields["tree"])),
+                   ("cold-cache-is-filled-with-the-mask-of-the-subset-a-warm-one-is-kept", mask_cached)],
+          notes="furcation and tip subsets; topology fixed per variant (21 trees of 1-4 nodes, 4 shapes of 6-7 nodes), coordinates symbolic; the mask "
+                "`nodes` is a cached_property: a warm cache (one variant) is used as it is -- topology may be stale, coordinates are read from the tree")
+
+    def ft_post(E, v, o):
+        res = v["result"]
+        nf = res.fields.get("_features") if isinstance(res, Obj_) else None
+        return (isinstance(res, Obj_) and res.cls is o["cls"] and isinstance(nf, Obj_) and nf.cls is NodeFeatures and nf.fields.get("tree") is v["tree"]
+                and set(res.fields) == {"_features"} and set(nf.fields) == {"tree"} and res.uid not in E.entry_uids and nf.uid not in E.entry_uids)
+
+    R.add(f"{FEAT}:_SubsetNodesFeatures.from_tree", prop="C10",
+          variants={c.__name__: (lambda S, _c=c: dict(cls=_c, tree=sym_tree(S, "t"))) for c in (FurcationFeatures, TipFeatures)},
+          ensures=[("fresh-subset-object-of-the-class-over-fresh-node-features-of-that-very-tree-with-empty-caches", ft_post)],
+          notes="tree of symbolic size")
+
+    # ------------------------------------------------ bifurcation angles (L-Measure)
+    # Everything is stated through squared distances: for arms u = P_a - P_b, w = P_c - P_b the polarisation identity gives
+    # u.w = (d2(a,b) + d2(c,b) - d2(a,c)) / 2, |u| = dist(a,b), |w| = dist(c,b).  arccos is uninterpreted (same symbol in the
+    # code model and here), degrees(x) = x*180/pi with the engine's abstract pi.
+    from swcgeom.analysis.lmeasure import LMeasure
+
+    ARCCOS = z3.Function("arccos", z3.RealSort(), z3.RealSort())
+    SORTED_TOPOS = [p for p in TOPOS if all(q < i for i, q in enumerate(p))]
+
+    def bif_variants():
+        out = {}
+        for p in SORTED_TOPOS + BIGGER:
+            for i in range(len(p)):
+                out[f"{pname(p)},node={i}"] = (lambda S, _p=p, _i=i: dict(self=S.obj(LMeasure, compartment_point=-1), bif=tnode_(S, topo_tree(S, _p), _i)))
+        return out
+
+    def tnode_(S, t, i):
+        return S.obj(Tree.Node, attach=t, idx=i, names=t.fields["names"])
+
+    def arms(o, remote):
+        """(bifurcation node, [end of arm 1, end of arm 2]) or None if the node does not have exactly two children"""
+        b = o["bif"].fields["idx"]
+        tp = Topo(pids_of(o["bif"].fields["attach"]))
+        ks = tp.kids(b)
+        if len(ks) != 2:
+            return tp, b, None
+        return tp, b, [tp.remote_end(k) for k in ks] if remote else ks
+
+    def cos_between(g, b, a, c):
+        """cosine of the angle at b between the arms b->a and b->c (defined when both arms have positive length)"""
+        sq = lambda i, j: g.d(i, j) * g.d(i, j)
+        return (sq(a, b) + sq(c, b) - sq(a, c)) / (2 * g.d(a, b) * g.d(c, b))
+
+    def angle_deg_is(E, r, cosv):
+        clipped = z3.If(cosv < -1, z3.RealVal(-1), z3.If(cosv > 1, z3.RealVal(1), cosv))
+        return r * to_z3(E.pi_const(), "real") == 180 * ARCCOS(clipped)
+
+    def zero_arm(E, o, remote, with_parent=False):
+        tp, b, ends = arms(o, remote)
+        g = Geo(E, o["bif"].fields["attach"])
+        zs = [g.d(e, b) == 0 for e in ends]
+        if with_parent:
+            zs.append(g.d(tp.pids[b], b) == 0)
+        return z3.Or(*zs)
+
+    def ampl_post(remote):
+        def f(E, v, o):
+            tp, b, ends = arms(o, remote)
+            if ends is None:
+                return False
+            g = Geo(E, o["bif"].fields["attach"])
+            return z3.And(z3.Not(zero_arm(E, o, remote)), angle_deg_is(E, to_z3(v["result"], "real"), cos_between(g, b, ends[0], ends[1])))
+
+        return f
+
+    def arm_vector(t, a, b):
+        """coordinate differences P_a - P_b read from the tree's columns (PROOF STEPS only: the clauses never touch coordinates)"""
+        nm = t.fields["names"]
+        return [to_z3(col(t, c).items[a], "real") - to_z3(col(t, c).items[b], "real") for c in (nm.x, nm.y, nm.z)]
+
+    def polar_steps(E, g, t, tag, b, a, c):
+        """proof steps for the arms u = P_a - P_b, w = P_c - P_b: 2 u.w = d2(a,b) + d2(c,b) - d2(a,c) (a ring identity), hence
+        the cosine u.w / (|u||w|) -- the term the code computes -- is the cosine written through the three distances"""
+        ta, I = g.ta, z3.IntVal
+        dz = sum((p * q for p, q in zip(arm_vector(t, a, b), arm_vector(t, c, b))), z3.RealVal(0))
+        E.prove(f"{tag}/step/polarisation-identity", 2 * dz == d2(ta, I(a), I(b)) + d2(ta, I(c), I(b)) - d2(ta, I(a), I(c)), "proof step")
+        na, nc, nac = g.d(a, b), g.d(c, b), g.d(a, c)
+        P = na * na + nc * nc - nac * nac
+        E.prove(f"{tag}/step/dot-product-through-the-three-distances", 2 * dz == P, "proof step")
+        lemlib.use(E, "half-quotient", dz, P, na * nc)
+        cosv = cos_between(g, b, a, c)
+        E.prove(f"{tag}/step/cosine-of-the-arms-is-the-cosine-of-the-three-distances", z3.Implies(na * nc != 0, dz / (na * nc) == cosv), "proof step")
+        clipped = z3.If(cosv < -1, z3.RealVal(-1), z3.If(cosv > 1, z3.RealVal(1), cosv))
+        lemlib.use(E, "degrees-times-pi", ARCCOS(clipped), to_z3(E.pi_const(), "real"))
+
+    def polar_hint(nm, remote, with_parent=False):
+        def h(E, vars):
+            if not isinstance(vars.get("bif"), Obj_):
+                return
+            tp, b, ends = arms(vars, remote)
+            if ends is None:
+                return
+            t = vars["bif"].fields["attach"]
+            g = Geo(E, t)
+            if not with_parent:
+                polar_steps(E, g, t, f"LMeasure.{nm}", b, ends[0], ends[1])
+            elif tp.pids[b] != -1:
+                polar_steps(E, g, t, f"LMeasure.{nm}/arm1", b, tp.pids[b], ends[0])
+                polar_steps(E, g, t, f"LMeasure.{nm}/arm2", b, tp.pids[b], ends[1])
+
+        return h
+
+    for nm, remote in (("bif_ampl_local", False), ("bif_ampl_remote", True)):
+        R.add(f"{LM}:LMeasure.{nm}", prop="C10", variants=bif_variants(),
+              options=dict(inline_calls=INLINE, hints={"post/degrees-of-arccos-of-the-clipped-cosine-between-the-two-arms": polar_hint(nm, remote)}),
+              raises={"AssertionError": ("not-a-bifurcation", lambda E, v, o, _r=remote: arms(v, _r)[2] is None),
+                      "ValueError": ("an-arm-of-zero-length", lambda E, v, o, _r=remote: arms(v, _r)[2] is not None and zero_arm(E, v, _r))},
+              ensures=[("degrees-of-arccos-of-the-clipped-cosine-between-the-two-arms", ampl_post(remote))],
+              notes="every node of every parents-first topology of 1-4 nodes (10 parent vectors) and of 4 shapes of 6-7 nodes; arms run from the bifurcation to its two "
+                    + ("next critical nodes (furcation or tip) below each daughter" if remote else "daughters") + "; coordinates symbolic; arccos uninterpreted")
+
+    def tilt_post(remote):
+        def f(E, v, o):
+            tp, b, ends = arms(o, remote)
+            if ends is None or tp.pids[b] == -1:
+                return False
+            g = Geo(E, o["bif"].fields["attach"])
+            r, par = to_z3(v["result"], "real"), tp.pids[b]
+            a1, a2 = z3.Real(fresh_name("tilt1")), z3.Real(fresh_name("tilt2"))
+            # exists a1, a2: the two angles, result = the smaller  <=>  stated without quantifiers through both cases
+            c1, c2 = cos_between(g, b, par, ends[0]), cos_between(g, b, par, ends[1])
+            pi = to_z3(E.pi_const(), "real")
+            clip = lambda c: z3.If(c < -1, z3.RealVal(-1), z3.If(c > 1, z3.RealVal(1), c))
+            d1, d2_ = 180 * ARCCOS(clip(c1)) / pi, 180 * ARCCOS(clip(c2)) / pi
+            return z3.And(z3.Not(zero_arm(E, o, remote, True)), r == z3.If(d1 <= d2_, d1, d2_))
+
+        return f
+
+    for nm, remote in (("bif_tilt_local", False), ("bif_tilt_remote", True)):
+        R.add(f"{LM}:LMeasure.{nm}", prop="C10", variants=bif_variants(),
+              options=dict(inline_calls=INLINE, hints={"post/smaller-of-the-two-angles-in-degrees-between-the-parent-segment-and-each-arm": polar_hint(nm, remote, True)}),
+              raises={"AssertionError": ("root-or-not-a-bifurcation", lambda E, v, o, _r=remote: arms(v, _r)[2] is None or arms(v, _r)[0].pids[arms(v, _r)[1]] == -1),
+                      "ValueError": ("an-arm-or-the-parent-segment-of-zero-length", lambda E, v, o, _r=remote: arms(v, _r)[2] is not None and arms(v, _r)[0].pids[arms(v, _r)[1]] != -1 and zero_arm(E, v, _r, True))},
+              ensures=[("smaller-of-the-two-angles-in-degrees-between-the-parent-segment-and-each-arm", tilt_post(remote))],
+              notes="as bif_ampl_*; the parent segment runs from the bifurcation to its parent node")
+
+    return dict(Geo=Geo, multiset=multiset, bo_post=bo_post, srd_post=srd_post)
+
+
+# ===========================================================================
+# the extractor front end: extract_feature / FeatureExtractor.get and its three implementations
+def register_extractors(R, H, PAD):
+    from pyvc.values import Obj, Opaque, PDict, PList
+    from swcgeom.analysis.feature_extractor import Features, PopulationFeatureExtractor, PopulationsFeatureExtractor, TreeFeatureExtractor
+
+    feat_get, feature_id, FLEN, FV, rows_padded, calls_are = (PAD[k] for k in ("feat_get", "feature_id", "FLEN", "FV", "rows_padded", "calls_are"))
+
+    def abstract_features(S, name):
+        return S.opaque({"get": feat_get}, name=name)
+
+    def tree_fe(S):
+        x = abstract_features(S, "features")
+        return S.obj(TreeFeatureExtractor, _tree=None, _features=x), [x]
+
+    def pop_fe(P):
+        def f(S):
+            xs = [abstract_features(S, f"features{p}") for p in range(P)]
+            return S.obj(PopulationFeatureExtractor, _population=None, _features=PList(xs)), xs
+
+        return f
+
+    def vector_is(E, res, x, feature, kwargs):
+        """THE statement for one tree: `res` is the evaluator's vector for that request"""
+        if not isinstance(res, SArr):
+            return False
+        f = feature_id(E, feature, kwargs)
+        i = z3.Int(fresh_name("i"))
+        return z3.And(res.nz() == FLEN(x.z, f), z3.ForAll([i], z3.Implies(z3.And(i >= 0, i < res.nz()), to_z3(res.get(i), "real") == FV(x.z, f, i))))
+
+    def blocks_padded(E, res, xss, feature, kwargs):
+        """THE statement for populations: one (T, L) block per population, T = the largest number of trees, L = the longest vector:
+        row (i, j) = the vector of tree j of population i followed by zeros; rows of missing trees are zero"""
+        f = feature_id(E, feature, kwargs)
+        T = max(len(xs) for xs in xss)
+        if not (isinstance(res, ext_C10.Grid) and res.P == len(xss) and res.T == T and res.kind == "real" and res.uid not in E.entry_uids):
+            return False
+        L = zint(res.n)
+        lens = [FLEN(x.z, f) for xs in xss for x in xs]
+        out = [z3.And(*[L >= a for a in lens]), z3.Or(*[L == a for a in lens])]
+        for i, xs in enumerate(xss):
+            for j in range(T):
+                row = res.row(i, j)
+                if j < len(xs):
+                    out.append(padded(row, L, (lambda q, _x=xs[j]: FV(_x.z, f, q)), FLEN(xs[j].z, f), 0))
+                else:
+                    out.append(padded(row, L, (lambda q: z3.RealVal(0)), z3.IntVal(0), 0))
+        return z3.And(*out)
+
+    def pops_fe(sizes):
+        def f(S):
+            xss = [[abstract_features(S, f"features{a}_{b}") for b in range(k)] for a, k in enumerate(sizes)]
+            return S.obj(PopulationsFeatureExtractor, _populations=None, _features=PList([PList(xs) for xs in xss])), xss
+
+        return f
+
+    def value_is(E, o, res, feature, kwargs):
+        xs = o["__fs__"]
+        if o["self"].cls is TreeFeatureExtractor:
+            return vector_is(E, res, xs[0], feature, kwargs)
+        if o["self"].cls is PopulationsFeatureExtractor:
+            return blocks_padded(E, res, xs, feature, kwargs)
+        return rows_padded(E, res, xs, feature, kwargs)
+
+    def requests(o):
+        """the requests a call of get() stands for: [(key or None, feature, kwargs)]"""
+        f, kw = o["feature"], dict(o["kwargs"].items) if isinstance(o.get("kwargs"), PDict) else {}
+        norm = lambda x, extra: (x[0], {**dict(x[1].items), **extra}) if isinstance(x, tuple) else (x, dict(extra))
+        if isinstance(f, PDict):
+            return "dict", [(k, k, dict(kv.items)) for k, kv in f.items.items()]
+        if isinstance(f, PList):
+            return "list", [(None,) + norm(x, {}) for x in f.items]
+        return "single", [(None,) + norm(f, kw)]
+
+    def get_post(E, v, o):
+        form, reqs = requests(o)
+        res = v["result"]
+        if form == "single":
+            return value_is(E, o, res, reqs[0][1], reqs[0][2])
+        if form == "list":
+            if not (isinstance(res, PList) and res.items is not None and len(res.items) == len(reqs) and res.uid not in E.entry_uids):
+                return False
+            return z3.And(*[value_is(E, o, x, f, kw) for x, (_, f, kw) in zip(res.items, reqs)])
+        if not (isinstance(res, PDict) and res.items is not None and list(res.items) == [k for k, _, _ in reqs] and res.uid not in E.entry_uids):
+            return False
+        return z3.And(*[value_is(E, o, res.items[k], f, kw) for k, f, kw in reqs])
+
+    def get_calls(E, v, o):
+        _, reqs = requests(o)
+        flat = [x for xs in o["__fs__"] for x in xs] if o["self"].cls is PopulationsFeatureExtractor else o["__fs__"]
+        return calls_are(E, [(x, f, kw) for _, f, kw in reqs for x in flat])
+
+    def mk(fe_setup, feature, kwargs=None):
+        def f(S):
+            fe, xs = fe_setup(S)
+            d = dict(self=fe, feature=feature(S) if callable(feature) else feature, __fs__=xs)
+            if kwargs is not None:
+                d["kwargs"] = PDict(kwargs(S))
+            return d
+
+        return f
+
+    variants = {}
+    for nm, fs in (("tree", tree_fe), ("population-of-2-trees", pop_fe(2))):
+        variants[f"{nm},one-name"] = mk(fs, "some_feature")
+        variants[f"{nm},one-name-with-keyword-arguments"] = mk(fs, "some_feature", lambda S: dict(alpha=S.real("alpha"), beta=3))
+        variants[f"{nm},name-and-arguments-pair-plus-keyword-arguments"] = mk(fs, lambda S: ("some_feature", PDict(dict(alpha=S.real("alpha"), beta=1))), lambda S: dict(beta=2))
+        variants[f"{nm},list-of-names-and-pairs"] = mk(fs, lambda S: PList(["feature_a", ("feature_b", PDict(dict(k=S.real("k")))), "feature_a"]))
+        variants[f"{nm},dict-name-to-arguments"] = mk(fs, lambda S: PDict(dict(feature_a=PDict({}), feature_b=PDict(dict(k=S.real("k"))))))
+        variants[f"{nm},empty-list"] = mk(fs, lambda S: PList([]))
+    variants["populations-of-2-and-1-trees,one-name-with-keyword-arguments"] = mk(pops_fe([2, 1]), "some_feature", lambda S: dict(alpha=S.real("alpha")))
+    variants["populations-of-1-and-1-trees,list-of-names-and-pairs"] = mk(pops_fe([1, 1]), lambda S: PList(["feature_a", ("feature_b", PDict(dict(k=S.real("k"))))]))
+    variants["populations-of-2-trees,dict-name-to-arguments"] = mk(pops_fe([2]), lambda S: PDict(dict(feature_a=PDict({}), feature_b=PDict(dict(k=1)))))
+    variants["population-of-1-tree,one-name"] = mk(pop_fe(1), "some_feature")
+    variants["population-of-3-trees,list-of-names"] = mk(pop_fe(3), lambda S: PList(["feature_a", "feature_b"]))
+    variants["tree,deprecated-name"] = mk(tree_fe, "bifurcation_count")
+    variants["population-of-2-trees,deprecated-name"] = mk(pop_fe(2), "bifurcation_radial_distance")
+
+    R.add(f"{FEX}:FeatureExtractor.get", prop="C10", variants=variants,
+          raises={"DeprecationWarning": ("a-deprecated-bifurcation-feature-was-asked-for", lambda E, v, o: isinstance(v["feature"], str) and v["feature"].startswith("bifurcation_"))},
+          ensures=[("per-request-the-tree-evaluators-vector-or-one-zero-padded-row-per-tree-of-the-population-or-populations-lists-and-dicts-keep-order-and-keys", get_post),
+                   ("every-evaluator-asked-once-per-request-in-order-with-the-merged-keyword-arguments", get_calls)],
+          notes="TreeFeatureExtractor, PopulationFeatureExtractor (1-3 trees) and PopulationsFeatureExtractor (1-2 populations, 2-3 trees) over ABSTRACT per-tree evaluators (any vector per (tree, request)); "
+                "single name, (name, kwargs) pair merged with keyword arguments (keyword arguments win), list form, dict form, deprecated names")
+
+    # ------------------------------------------------ _get_feat_and_kwargs
+    def gfk_post(E, v, o):
+        f, kw, res = o["feature"], dict(o["kwargs"].items), v["result"]
+        if not (isinstance(res, tuple) and len(res) == 2 and isinstance(res[1], PDict) and res[1].items is not None):
+            return False
+        if isinstance(f, tuple):
+            want = {**dict(f[1].items), **kw}
+            fresh_ok = res[1].uid != f[1].uid and dict(v["feature"][1].items) == dict(f[1].items)  # the caller's dict is neither returned nor changed
+            name = f[0]
+        else:
+            want, fresh_ok, name = kw, True, f
+        same = list(res[1].items) == list(want) and all(res[1].items[k] is want[k] or res[1].items[k] == want[k] for k in want)
+        return res[0] == name and same and fresh_ok
+
+    R.add(f"{FEX}:_get_feat_and_kwargs", prop="C10",
+          variants={"name": lambda S: dict(feature="length", kwargs=PDict({})),
+                    "name-with-keyword-arguments": lambda S: dict(feature="sholl", kwargs=PDict(dict(steps=S.int("steps")))),
+                    "pair": lambda S: dict(feature=("sholl", PDict(dict(steps=S.int("steps")))), kwargs=PDict({})),
+                    "pair-with-overriding-keyword-arguments": lambda S: dict(feature=("volume", PDict(dict(accuracy=1, other=S.real("other")))), kwargs=PDict(dict(accuracy=2)))},
+          ensures=[("name-and-the-arguments-of-the-pair-updated-by-the-keyword-arguments-in-a-dict-of-its-own", gfk_post)])
+
+    # ------------------------------------------------ extract_feature and the three constructors
+    from swcgeom.core.population import Population, Populations
+    from swcgeom.core.tree import Tree as Tree_
+
+    class _same_but_fresh:
+        """view of the object under construction (allocated by the caller of __init__) that `built` accepts as new"""
+
+        def __init__(self, obj, E):
+            self.__dict__.update(cls=obj.cls, fields=obj.fields, uid=-1)
+
+
+    def population(S, k, tag=""):
+        trees = [sym_tree(S, f"t{tag}{j}") for j in range(k)]
+        return S.obj(Population, trees=PList(trees), root=""), trees
+
+    def populations(S, sizes):
+        ps = [population(S, k, tag=f"{a}_") for a, k in enumerate(sizes)]
+        return S.obj(Populations, len=min(sizes) if sizes else 0, populations=PList([p for p, _ in ps]), labels=PList(["" for _ in ps])), [ts for _, ts in ps]
+
+    def is_features_of(x, t, E):
+        """a NEW Features object over exactly tree t with every cache empty"""
+        return isinstance(x, Obj) and x.cls is Features and x.fields.get("tree") is t and set(x.fields) == {"tree"} and x.uid not in E.entry_uids
+
+    def built(E, res, obj, trees):
+        """what a constructor / extract_feature must hand back for `obj` (trees: the tree, the list of trees of a population,
+        the list of lists of a Populations -- the live input objects)"""
+        if not ((isinstance(res, Obj) or isinstance(res, _same_but_fresh)) and res.uid not in E.entry_uids):
+            return False
+        if obj.cls is Population:
+            fs = res.fields.get("_features")
+            return (res.cls is PopulationFeatureExtractor and set(res.fields) == {"_population", "_features"} and res.fields["_population"] is obj
+                    and isinstance(fs, PList) and fs.items is not None and len(fs.items) == len(trees) and all(is_features_of(x, t, E) for x, t in zip(fs.items, trees)))
+        if obj.cls is Populations:
+            fs = res.fields.get("_features")
+            if not (res.cls is PopulationsFeatureExtractor and set(res.fields) == {"_populations", "_features"} and res.fields["_populations"] is obj
+                    and isinstance(fs, PList) and fs.items is not None and len(fs.items) == len(trees)):
+                return False
+            return all(isinstance(row, PList) and row.items is not None and len(row.items) == len(ts) and all(is_features_of(x, t, E) for x, t in zip(row.items, ts))
+                       for row, ts in zip(fs.items, trees))
+        return (res.cls is TreeFeatureExtractor and set(res.fields) == {"_tree", "_features"} and res.fields["_tree"] is obj and is_features_of(res.fields["_features"], obj, E))
+
+    def ef_setup(kind):
+        def f(S):
+            if kind == "tree":
+                t = sym_tree(S, "t")
+                return dict(obj=t, __trees__=t)
+            if kind.startswith("population-of-"):
+                p, ts = population(S, int(kind.split("-")[2]))
+                return dict(obj=p, __trees__=ts)
+            if kind.startswith("populations-of-"):
+                p, tss = populations(S, [int(x) for x in kind.split("-")[2].split("+")])
+                return dict(obj=p, __trees__=tss)
+            return dict(obj={"an-int": 3, "None": None, "a-file-name": "neuron.swc", "a-list-of-trees": PList([sym_tree(S, "t")])}[kind], __trees__=None)
+
+        return f
+
+    KINDS = ["tree", "population-of-0-trees", "population-of-1-trees", "population-of-3-trees", "populations-of-2+1-trees", "populations-of-1-trees", "populations-of-0+2-trees",
+             "an-int", "None", "a-file-name", "a-list-of-trees"]
+    R.add(f"{FEX}:extract_feature", prop="C10", variants={k: ef_setup(k) for k in KINDS}, options=dict(inline_calls=INLINE + POP_INLINE),
+          raises={"TypeError": ("neither-a-tree-nor-a-population-nor-populations", lambda E, v, o: not (isinstance(v["obj"], Obj) and v["obj"].cls in (Tree_, Population, Populations)))},
+          ensures=[("the-extractor-of-the-kind-of-the-argument-with-one-fresh-evaluator-per-tree-in-order", lambda E, v, o: built(E, v["result"], v["obj"], v["__trees__"])),
+                   ("it-is-a-tree-a-population-or-populations", lambda E, v, o: isinstance(o["obj"], Obj) and o["obj"].cls in (Tree_, Population, Populations))],
+          notes="trees of symbolic size; populations of 0-3 trees, populations of 1-2 populations; other argument kinds: TypeError")
+    for cls, kinds, param in ((TreeFeatureExtractor, ["tree"], "tree"), (PopulationFeatureExtractor, ["population-of-0-trees", "population-of-2-trees"], "population"),
+                              (PopulationsFeatureExtractor, ["populations-of-2+1-trees", "populations-of-0-trees"], "populations")):
+        def init_setup(kind, _cls=cls, _param=param):
+            def f(S):
+                d = ef_setup(kind)(S)
+                return {"self": S.obj(_cls), _param: d["obj"], "__trees__": d["__trees__"]}
+
+            return f
+
+        R.add(f"{FEX}:{cls.__name__}.__init__", prop="C10", variants={k: init_setup(k) for k in kinds}, options=dict(inline_calls=INLINE + POP_INLINE),
+              ensures=[("keeps-the-argument-and-one-fresh-evaluator-per-tree-in-order",
+                        lambda E, v, o, _param=param: v["result"] is None and built(E, _same_but_fresh(v["self"], E), v[_param], v["__trees__"]))])
+
+    # ------------------------------------------------ Sholl through the front end (warm cache: the Sholl object exists)
+    def radii_of(steps, rmax):
+        """the radii a request stands for: the given array, or j*rmax/(steps+1), j = 1..steps"""
+        if isinstance(steps, NArr):
+            return list(steps.items)
+        return [Sym(z3.RealVal(j + 1) * to_z3(rmax, "real") / z3.RealVal(steps + 1), "real") for j in range(steps)]
+
+    def counts_are(E, items, sh, radii):
+        n = sh.fields["rs"].nz()
+        return z3.And(*[is_count_of(E, x, n, rs_pred(sh, r)) for x, r in zip(items, radii)]) if radii else True
+
+    def steps_variants(build):
+        out = {f"steps={k}": (lambda S, _k=k: build(S, dict(steps=_k))) for k in (1, 3)}
+        out["steps=array-of-2-radii"] = lambda S: build(S, dict(steps=NArr((2,), [S.real("step0"), S.real("step1")], "real")))
+        out["default-steps=20"] = lambda S: build(S, {})
+        return out
+
+    def sholl_vector_post(get_sh):
+        def f(E, v, o):
+            sh, res = get_sh(o), v["result"]
+            steps = dict(o["kwargs"].items).get("steps", 20)
+            radii = radii_of(steps, sh.fields["rmax"])
+            if not (isinstance(res, NArr) and res.shape == (len(radii),) and res.kind == "real" and res.root().uid not in E.entry_uids):
+                return False
+            return counts_are(E, res.items, sh, radii)
+
+        return f
+
+    def sholl_kept(get_sh):
+        return lambda E, v, o: rs_unchanged(E, dict(self=get_sh(v)), dict(self=get_sh(o)))
+
+    def warm_features(S, name="rs"):
+        return S.obj(Features, tree=None, sholl=sholl_obj(S, name))
+
+    R.add(f"{FEX}:Features.get_sholl", prop="C10",
+          variants=steps_variants(lambda S, kw: dict(self=warm_features(S), kwargs=PDict(kw))),
+          ensures=[("float-vector-of-one-straddle-count-per-radius-of-the-cached-sholl-object", sholl_vector_post(lambda o: o["self"].fields["sholl"])),
+                   ("cached-sholl-object-kept-unchanged", sholl_kept(lambda o: o["self"].fields["sholl"]))],
+          notes="warm cache (`sholl` is a cached_property: the Sholl object, which holds its own translated COPY of the tree, is built on first use and never "
+                "refreshed -- later edits of the tree are not seen); rs symbolic (m, 2), any m; steps 1, 3, default 20, or 2 symbolic radii")
+    R.add(f"{FEX}:TreeFeatureExtractor.get_sholl", prop="C10",
+          variants=steps_variants(lambda S, kw: dict(self=S.obj(TreeFeatureExtractor, _tree=None, _features=warm_features(S)), kwargs=PDict(kw))),
+          ensures=[("float-vector-of-one-straddle-count-per-radius-of-the-cached-sholl-object", sholl_vector_post(lambda o: o["self"].fields["_features"].fields["sholl"])),
+                   ("cached-sholl-object-kept-unchanged", sholl_kept(lambda o: o["self"].fields["_features"].fields["sholl"]))],
+          notes="as Features.get_sholl")
+
+    # ------------------------------------------------ PopulationFeatureExtractor._get_sholl_impl / get_sholl
+    def pop_sholl_setup(P, direct):
+        def build(S, kw):
+            fs = [warm_features(S, f"rs{p}_") for p in range(P)]
+            d = dict(self=S.obj(PopulationFeatureExtractor, _population=None, _features=PList(fs)), __fs__=fs)
+            d.update(kw if direct else dict(kwargs=PDict(kw)))  # _get_sholl_impl(steps=20, **kwargs) names the parameter, get_sholl(**kwargs) forwards it
+            return d
+
+        return build
+
+    def steps_of(o):
+        return o["steps"] if "steps" in o else dict(o["kwargs"].items).get("steps", 20)
+
+    def common_rmax(E, fs):
+        """the largest rmax of the population (a fresh ghost constant characterised as the maximum)"""
+        rms = [to_z3(f.fields["sholl"].fields["rmax"], "real") for f in fs]
+        m = rms[0]
+        for x in rms[1:]:
+            m = z3.If(x > m, x, m)
+        return m
+
+    def pop_sholl_rows(E, vals, o, radii):
+        fs = o["__fs__"]
+        if not (isinstance(vals, NArr) and vals.shape == (len(fs), len(radii)) and vals.root().uid not in E.entry_uids):
+            return False
+        k = len(radii)
+        return z3.And(*[counts_are(E, vals.items[p * k:(p + 1) * k], f.fields["sholl"], radii) for p, f in enumerate(fs)])
+
+    def pop_sholl_post(with_rs):
+        def f(E, v, o):
+            res = v["result"]
+            radii = radii_of(steps_of(o), Sym(common_rmax(E, o["__fs__"]), "real"))
+            if with_rs:
+                if not (isinstance(res, tuple) and len(res) == 2 and isinstance(res[1], NArr) and res[1].shape == (len(radii),)):
+                    return False
+                return z3.And(pop_sholl_rows(E, res[0], o, radii), *[to_z3(a, "real") == to_z3(b, "real") for a, b in zip(res[1].items, radii)])
+            return pop_sholl_rows(E, res, o, radii)
+
+        return f
+
+    def all_sholl_kept(E, v, o):
+        return all(rs_unchanged(E, dict(self=a.fields["sholl"]), dict(self=b.fields["sholl"])) for a, b in zip(v["__fs__"], o["__fs__"]))
+
+    def pv(direct):
+        out = {}
+        for P in (1, 2):
+            for k, fn in steps_variants(pop_sholl_setup(P, direct)).items():
+                if not (P == 2 and k == "default-steps=20"):
+                    out[f"population-of-{P}-trees,{k}"] = fn
+        return out
+
+    for nm, with_rs in (("_get_sholl_impl", True), ("get_sholl", False)):
+        R.add(f"{FEX}:PopulationFeatureExtractor.{nm}", prop="C10", variants=pv(with_rs),
+              ensures=[("one-row-of-straddle-counts-per-tree-at-common-radii-j-times-the-largest-rmax-over-steps-plus-1" + ("-and-those-radii" if with_rs else ""), pop_sholl_post(with_rs)),
+                       ("cached-sholl-objects-kept-unchanged", all_sholl_kept)],
+              notes="1-2 trees with warm Sholl caches (rs symbolic (m_p, 2), any m_p, rmax_p any real); steps 1, 3, default 20 (one tree), or 2 given radii")
+
+    # ------------------------------------------------ PopulationsFeatureExtractor._get_impl
+    def pops_setup(sizes):
+        def f(S):
+            xss = [[abstract_features(S, f"features{a}_{b}") for b in range(k)] for a, k in enumerate(sizes)]
+            return dict(self=S.obj(PopulationsFeatureExtractor, _populations=None, _features=PList([PList(xs) for xs in xss])), feature="some_feature", __fs__=xss)
+
+        return f
+
+    def pops_post(E, v, o):
+        return blocks_padded(E, v["result"], o["__fs__"], o["feature"], {})
+
+    # FINDING: with exactly ONE tree in total (one population holding one tree) `max(*chain.from_iterable(...))` receives a single int and
+    # raises TypeError("'int' object is not iterable") instead of returning the (1, 1, L) block -- replayed natively, see the report;
+    # the variant "1-population-of-1-tree" keeps the obligation PopulationsFeatureExtractor._get_impl/exc/unexpected-TypeError failing
+    R.add(f"{FEX}:PopulationsFeatureExtractor._get_impl", prop="C10",
+          variants={"1-population-of-1-tree": pops_setup([1]), "1-population-of-2-trees": pops_setup([2]), "2-populations-of-1-tree": pops_setup([1, 1]),
+                    "2-populations-of-2-and-1-trees": pops_setup([2, 1]), "2-populations-of-0-and-2-trees": pops_setup([0, 2])},
+          ensures=[("one-zero-padded-row-per-tree-per-population-rows-of-missing-trees-zero", pops_post),
+                   ("each-tree-evaluated-once-in-order-with-the-requested-feature", lambda E, v, o: calls_are(E, [(x, o["feature"], {}) for xs in o["__fs__"] for x in xs]))],
+          notes="1-2 populations of 0-2 trees (at least one tree in total); the per-tree vectors are abstract (any length, any contents)")
+
+    # ------------------------------------------------ PopulationsFeatureExtractor._get_sholl_impl / get_sholl
+    def pops_sholl_setup(sizes, direct):
+        def build(S, kw):
+            fss = [[warm_features(S, f"rs{a}_{b}_") for b in range(k)] for a, k in enumerate(sizes)]
+            d = dict(self=S.obj(PopulationsFeatureExtractor, _populations=None, _features=PList([PList(fs) for fs in fss])), __fss__=fss, __fs__=[f for fs in fss for f in fs])
+            d.update(kw if direct else dict(kwargs=PDict(kw)))
+            return d
+
+        return build
+
+    def pops_sholl_post(with_rs):
+        def f(E, v, o):
+            res, fss = v["result"], o["__fss__"]
+            radii = radii_of(steps_of(o), Sym(common_rmax(E, o["__fs__"]), "real"))
+            vals = res[0] if with_rs else res
+            if with_rs and not (isinstance(res, tuple) and len(res) == 2 and isinstance(res[1], NArr) and res[1].shape == (len(radii),)):
+                return False
+            T, k = max(len(fs) for fs in fss), len(radii)
+            if not (isinstance(vals, NArr) and vals.shape == (len(fss), T, k) and vals.root().uid not in E.entry_uids):
+                return False
+            out = [to_z3(a, "real") == to_z3(b, "real") for a, b in zip(res[1].items, radii)] if with_rs else []
+            for i, fs in enumerate(fss):
+                for j in range(T):
+                    row = vals.items[(i * T + j) * k:(i * T + j + 1) * k]
+                    out.append(counts_are(E, row, fs[j].fields["sholl"], radii) if j < len(fs) else z3.And(*[to_z3(x, "real") == 0 for x in row]))
+            return z3.And(*out)
+
+        return f
+
+    def ppv(direct):
+        out = {}
+        for nm, sizes in (("1-population-of-2-trees", [2]), ("2-populations-of-1-tree", [1, 1]), ("2-populations-of-1-and-2-trees", [1, 2])):
+            build = pops_sholl_setup(sizes, direct)
+            out[f"{nm},steps=2"] = (lambda S, _b=build: _b(S, dict(steps=2)))
+            if sizes != [1, 2]:
+                out[f"{nm},steps=array-of-2-radii"] = (lambda S, _b=build: _b(S, dict(steps=NArr((2,), [S.real("step0"), S.real("step1")], "real"))))
+        return out
+
+    for nm, with_rs in (("_get_sholl_impl", True), ("get_sholl", False)):
+        R.add(f"{FEX}:PopulationsFeatureExtractor.{nm}", prop="C10", variants=ppv(with_rs), options=dict(inline_calls=INLINE),
+              ensures=[("one-row-of-straddle-counts-per-tree-per-population-at-common-radii-rows-of-missing-trees-zero" + ("-and-those-radii" if with_rs else ""), pops_sholl_post(with_rs)),
+                       ("cached-sholl-objects-kept-unchanged", all_sholl_kept)],
+              notes="1-2 populations of 1-2 trees (at least two trees in total: with a single tree the call runs into the TypeError recorded at "
+                    "PopulationsFeatureExtractor._get_impl) with warm Sholl caches; steps=2 or 2 given radii")
